@@ -21,7 +21,7 @@ ID = "C57"
 ENGINE = "tasks"
 LEVEL = "exploration"
 TECHNIQUE = "deterministic simulation: seeded event streams with raising / re-entrant observers (fault injection at the observer seam) vs fan-out, prefix-rule and ring-buffer reference models"
-QUICK_RUNS = 20000
+QUICK_RUNS = 60000
 BATCH = 150
 RUN_WALL_LIMIT_S = 120   # runs take milliseconds; generous because whole-machine stalls >20 s were seen under load
 COMPONENTS = {"real": ["twisted.logger.LogPublisher", "twisted.logger.Logger.emit/failure", "twisted.logger.LogLevelFilterPredicate",
